@@ -6,7 +6,8 @@
      multinomial ;; <m> ;; <n>                -> "k1,k2,..,km:c k1,..:c ..." (map order)  |  EXN:<k>
      subs ;; <kind> ;; <cache 0|1> ;; <dump e> ;; <dump k1> ;; <dump v1> ;; ...
          kind in xreplace subs msubs ssubs     -> "<dump of the result> ;; <hash>"  |  EXN:<k> ...
-     sflags ;; <dump e> ;; <dump k1> ;; <dump v1> ;; ...   -> three flags: occurs_any keys_consistent single_pow_key
+     sflags ;; <kind> ;; <dump e> ;; <dump k1> ;; <dump v1> ;; ...
+                                              -> four flags: occurs_any keys_consistent single_pow_key subs_guard
    Dumps are the text of harness/dump.h; results are printed in the same syntax (Add dictionaries in the
    model's order: the checks sort them on both sides). *)
 open Semodel
@@ -125,10 +126,11 @@ let () =
         | "subs" :: kind :: cache :: d :: kv ->
             let sd = mk_dict (pairs_of kv) in
             print_endline (show_res (subs_gen (kind_of_string kind) (cache = "1") sd (expr_of_string d)))
-        | "sflags" :: d :: kv ->
+        | "sflags" :: kind :: d :: kv ->
             let sd = mk_dict (pairs_of kv) in
             let e = expr_of_string d in
-            print_endline (b (occurs_any sd e) ^ b (keys_consistent sd e) ^ b (single_pow_key sd))
+            print_endline (b (occurs_any sd e) ^ b (keys_consistent sd e) ^ b (single_pow_key sd)
+                           ^ b (subs_guard (kind_of_string kind) sd e))
         | _ -> print_endline "FAIL bad line"
       with
       | Unsupported m -> print_endline ("UNSUPPORTED " ^ m)
